@@ -272,6 +272,15 @@ class Built:
         """clock domain seam (C05 perm_drivers, C10): the group gets its own ClockDriver, optionally
         gated by an enable wire; 'idiom' = 'gatedclock' routes the enable through a GatedClock block"""
         en = self.wire(drv['en']) if drv.get('en') else None
+        if drv.get('share') is not None:
+            # one ClockDriver object placed on several blocks (a.clockDriver = g; b.clockDriver = g)
+            shared = getattr(self, '_shared_drv', None)
+            if shared is None:
+                shared = self._shared_drv = {}
+            if drv['share'] not in shared:
+                shared[drv['share']] = py4hw.ClockDriver(drv['name'], base=self.hw.clockDriver, enable=en)
+            g.clockDriver = shared[drv['share']]
+            return
         if drv.get('wire'):
             # a second clock domain with its own clock wire (only meaningful for Verilog generation: the simulator clocks every domain)
             g.clockDriver = py4hw.ClockDriver(drv['name'], base=self.hw.clockDriver, enable=en, wire=self.wire(drv['wire']))
